@@ -314,7 +314,7 @@ def _get_class(ctx, direction, state, cname, cx):
     raise core.PathAbort()      # not registered for this version class
 
 
-def _roundtrip(ctx, P, cx, pkt, compare, label):
+def _roundtrip(ctx, P, cx, pkt, compare, label, id_name='registered_id'):
     if ctx.env.get('repr_only'):
         return _repr_only(ctx, P, cx, pkt, label)
     """write pkt, check the id on the wire, read back with the same class,
@@ -337,7 +337,7 @@ def _roundtrip(ctx, P, cx, pkt, compare, label):
             break
     real_get_id = P.__dict__.get('get_id')
     if static_id is None:
-        pid_any = ctx.int('registered_id', 0, 0x7F)
+        pid_any = ctx.int(id_name, 0, 0x7F)
         P.get_id = staticmethod(lambda _context: pid_any)
     else:
         pid_any = static_id           # the class carries a fixed id
@@ -773,8 +773,75 @@ def userdef(ctx, seed, first, count, lite=False):
     return _roundtrip(ctx, P, cx, pkt, compare, 'User%d' % k)
 
 
+DERIVED = [('clientbound', 'play', 'ChatMessagePacket'),
+           ('clientbound', 'play', 'KeepAlivePacket'),
+           ('serverbound', 'play', 'ChatPacket'),
+           ('clientbound', 'play', 'TimeUpdatePacket'),
+           ('clientbound', 'login', 'LoginSuccessPacket')]
+
+
+def derived(ctx, direction, state, cname, lite=True):
+    """a user-defined packet that EXTENDS a library packet by one field
+    (overriding get_definition, the documented way), used in the same
+    process as its parent - before or after it, the order is an input.  Both
+    round-trip with their own field lists."""
+    import minecraft
+    from minecraft.networking.types import Long
+    pv = sym_version(ctx, 'pv', list(minecraft.SUPPORTED_PROTOCOL_VERSIONS))
+    cx = _ctxobj(pv)
+    P = _get_class(ctx, direction, state, cname, cx)
+
+    class Child(P):
+        packet_name = 'user extension'
+
+        @classmethod
+        def get_definition(cls, context):
+            return list(P.get_definition(context)) + [{'user_extra': Long}]
+    Child.__name__ = 'User' + cname
+    if isinstance(getattr(P, 'definition', None), list):
+        # the parent fixes its layout with a `definition` attribute: the
+        # extension overrides that attribute
+        del Child.get_definition
+        Child.definition = list(P.definition) + [{'user_extra': Long}]
+    g = Gen(ctx, cx, strlen=1, lite=lite)
+
+    def run(C, tag):
+        fields = []
+        for d in C.get_definition(cx):
+            for name, typ in d.items():
+                fields.append((name, typ, g.value(typ, tag + name)))
+        pkt = C(cx, **{n: v for n, _, v in fields})
+        # the field list the instance itself reports
+        own = [n for d in (pkt.definition or []) for n in d]
+        named = z3.BoolVal(own == [n for n, _, _ in fields])
+
+        def compare(q):
+            cs = [named]
+            for n, typ, v in fields:
+                if not hasattr(q, n):
+                    cs.append(z3.BoolVal(False))
+                    continue
+                cs.append(g.same(typ, v, getattr(q, n)))
+            return z3.And(*cs)
+        return _roundtrip(ctx, C, cx, pkt, compare, tag + cname,
+                          id_name=tag + 'registered_id')
+    parent_first = concretize(ctx.int('parent_first', 0, 1))
+    order = [(P, 'p_'), (Child, 'c_')]
+    if not parent_first:
+        order.reverse()
+    conds = [run(C, tag) for C, tag in order]
+    note_key(ctx, 'C05:derived:%s.%s.%s' % (direction, state, cname))
+    return z3.And(*conds)
+
+
 def instances(tier, seed):
     out = []
+    for direction, state, cname in DERIVED:
+        out.append(Instance('derived:%s.%s.%s' % (direction, state, cname),
+                            'derived', {'direction': direction,
+                                        'state': state, 'cname': cname},
+                            W=96, budget_s=1800, witness_every=5,
+                            max_decisions=100000))
     strlen = 2 if tier == 'thorough' else 1
     for direction, state, cname in all_classes():
         heavy = cname in ('PlayerListItemPacket', 'MapPacket',
